@@ -11,6 +11,7 @@ import WebpVerif.Model.Vp8Quant
 import WebpVerif.Spec.Vp8QuantSpec
 import WebpVerif.Lemmas.Vp8LF
 import WebpVerif.Lemmas.Vp8Intra
+import WebpVerif.Lemmas.Vp8Frame
 
 /-!
 # C02 — VP8 key-frame reconstruction is bit-exact
@@ -129,6 +130,19 @@ theorem filter_frame_is_reference (isSimple : Bool) (sharp frameLevel mbw mbh : 
           ((mbs k).1 || (mbs k).2) (mbw * 16) (mbw * 8) (k % mbw) (k / mbw) p) p := by
   unfold Vp8LF.filterFrame
   simp only [Vp8LFProof.filterMb_is_doFilter]
+
+
+/-! ### whole frames -/
+
+/-- **plane sizes of every accepted key frame.**  `Vp8Frame.decode` is the complete model of the
+    key-frame decoder (compared with the real decoder on whole frames in every run): whenever it
+    accepts a frame, the luma plane has `w x h` samples and both chroma planes
+    `ceil(w/2) x ceil(h/2)`, with `w`, `h` the 14-bit size fields of the frame header - for every
+    byte string. -/
+theorem frame_plane_sizes (frame : List Nat) (w h : Nat) (y u v : List Nat) (hd : Vp8Frame.decode frame = some (w, h, y, u, v)) :
+    w = (frame.getD 6 0 + 256 * frame.getD 7 0) % 16384 ∧ h = (frame.getD 8 0 + 256 * frame.getD 9 0) % 16384 ∧
+    y.length = w * h ∧ u.length = ((w + 1) / 2) * ((h + 1) / 2) ∧ v.length = ((w + 1) / 2) * ((h + 1) / 2) :=
+  Vp8FrameProof.plane_sizes frame w h y u v hd
 
 /-! ### residue addition -/
 
